@@ -140,6 +140,8 @@ impl Family {
         match self.shape {
             "rep" => spec_of(&[(b"a", 1), (&self.frag, n), (b"\n", 1)]),
             "repraw" => spec_of(&[(&self.frag, n), (b"\n", 1)]),
+            // head once, then the fragment n times (state left on a delimiter/bracket stack by the head)
+            "headrep" => spec_of(&[(&self.close, 1), (&self.frag, n), (b"\n", 1)]),
             "nest" => spec_of(&[(&self.frag, n), (b"a", 1), (&self.close, n), (b"\n", 1)]),
             "lines" => {
                 let mut l = self.frag.clone();
@@ -199,6 +201,20 @@ fn curated() -> Vec<Family> {
     }
     // reference definitions + many uses
     v.push(f("repraw", "[a] ", ""));
+    // a head that leaves something on the delimiter / bracket stack, then n copies of a fragment
+    for head in ["a**a ", "a__a ", "a*a ", "*a ", "**a ", "_a ", "__a ", "[a ", "![a ", "`", "``", "$", "<", "a**a _b ", "a~~a ", "||a "] {
+        for frag in ["*a_ ", "_a* ", "*a ", "_a ", "**a ", "__a ", "a* ", "a_ ", "a** ", "*a** ", "**a* ", "[a ", "a] ", "`a ", "a` ", "~a ", "a~ "] {
+            v.push(f("headrep", frag, head));
+        }
+    }
+    // every pair of line kinds, repeated as one run of lines (paragraph continuation, table probing, lazy lines)
+    const LINES: &[&str] = &["a", "|-|", "|-|-|", "|a|", "|a|b|", "|:-|", "- a", "* a", "1. a", "> a", "```", "~~~", "    a", "<div>", "</div>", "[a]: /u", ": a",
+        "===", "---", "# a", "a  ", "[^a]: x", "  a", "\ta", "$$", ">>>", "- [ ] a", "|"];
+    for l1 in LINES {
+        for l2 in LINES {
+            v.push(f("lines", &format!("{}\n{}", l1, l2), ""));
+        }
+    }
     v
 }
 
@@ -552,7 +568,7 @@ pub fn replay(kind: &str, input: &str) -> Result<Option<String>, String> {
     match toks.first() {
         Some(&"pair") if toks.len() >= 7 => {
             let optname: &'static str = OPTSETS.iter().chain(["all+smart"].iter()).find(|o| **o == toks[1]).copied().ok_or("bad option set")?;
-            let shape: &'static str = ["rep", "repraw", "nest", "lines", "paras", "tree"].iter().find(|s| **s == toks[2]).copied().ok_or("bad shape")?;
+            let shape: &'static str = ["rep", "repraw", "headrep", "nest", "lines", "paras", "tree"].iter().find(|s| **s == toks[2]).copied().ok_or("bad shape")?;
             let fam = Family { shape, frag: crate::util::unhex(toks[3]).ok_or("bad hex")?, close: crate::util::unhex(toks[4]).ok_or("bad hex")?, curated: true };
             let n1: usize = toks[5].parse().map_err(|_| "bad n")?;
             let n2: usize = toks[6].parse().map_err(|_| "bad n")?;
